@@ -151,6 +151,16 @@ func (e *Engine) call(f *frame, st *State, instr ssa.Value, cc *ssa.CallCommon, 
 		return e.staticCall(f, st, fv.Fn, args, fv.Binds, rt, pos, cc)
 	}
 	e.oblige(st, "nil", "", e.C.Not(e.C.Eq(fv.Terms[0], e.C.IntLit(0))), pos, "call of nil function value")
+	if typeStr(cc.Value.Type()) == "context.CancelFunc" {
+		// cancelling a context closes that context's Done channel and nothing else; Done channels are not tracked
+		// (every ctx.Done() yields a channel in an unknown state), so the call has no effect on modelled state
+		e.note("ASSUMED: a context.CancelFunc affects only its own context (whose Done channel is not tracked)")
+		return Val{Typ: rt}
+	}
+	if top := topFrame(f); top.ct != nil && top.ct.NoEffect[strings.ReplaceAll(typeStr(cc.Value.Type()), repoPrefix+"/", "")] {
+		e.note("ASSUMED (contract of " + FuncKey(top.fn) + "): callbacks of type " + typeStr(cc.Value.Type()) + " have no effect on the state the contract speaks about")
+		return e.havocResult(st, "callback", rt)
+	}
 	if prm, ok := cc.Value.(*ssa.Parameter); ok && f.ct != nil {
 		for i, cl := range f.ct.Calls[prm.Name()] {
 			ctx := &evalCtx{e: e, f: f, st: st, old: f.entry, bound: map[string]EV{}, pkg: typesPkgOf(f.fn)}
